@@ -380,7 +380,72 @@ func TestInvalid(t *testing.T) {
 	})
 }
 
+// knownShapes are hand-kept valid programs whose outcome depends on the link order on the
+// current tree (known finding K4, see DESIGN.md §5): a default value is cast to a struct that
+// is still being linked, so a later field of that struct still has an unresolved type. The
+// random generators cannot produce them (they only build reference cycles through one struct
+// and its own typedef chain, with empty defaults on the back reference); this grid re-observes
+// them on every run, under every permutation of the type link order.
+var knownShapes = []struct {
+	Name  string
+	Src   string
+	Types []string
+}{
+	{"typedef-of-container-of-self/non-empty-default", "typedef map<string, S> M\nstruct S { 1: optional M m = {\"a\": {\"m\": {}}} }\n", []string{"M", "S"}},
+	{"struct-literal-on-struct-in-cycle/later-typedef-field-default", "typedef S T\ntypedef string Name\nstruct S { 1: optional U u\n 2: optional Name n = \"x\" }\nstruct U { 1: optional T t = {} }\n", []string{"Name", "S", "T", "U"}},
+}
+
+// KnownCase is the replayable form of one knownShapes entry.
+type KnownCase struct {
+	Known string   `json:"known"`
+	Src   string   `json:"src"`
+	Types []string `json:"types"`
+}
+
+func checkKnown(k KnownCase) error {
+	p := &im.Program{Files: []*im.File{{Path: "main.thrift", Raw: k.Src}}}
+	outcomes := map[string][]string{}
+	permutations(k.Types, func(perm []string) {
+		o := compileWith(p, map[string][]string{"main.thrift|types": perm})
+		key := "compiles"
+		if !o.ok {
+			key = "rejected: " + o.err
+		}
+		outcomes[key] = append(outcomes[key], strings.Join(perm, ","))
+	})
+	if len(outcomes) == 1 {
+		for k := range outcomes {
+			if k == "compiles" {
+				return nil
+			}
+		}
+	}
+	var lines []string
+	for o, perms := range outcomes {
+		lines = append(lines, fmt.Sprintf("%s  <= type link orders %v", o, perms))
+	}
+	sort.Strings(lines)
+	return ev.Errf("order-dependent/half-linked-default/"+k.Known, "a valid program compiles or fails depending on the order in which its types are linked:\n%s\n%s", k.Src, strings.Join(lines, "\n"))
+}
+
+// TestKnownShapes re-observes the hand-kept shapes of known finding K4.
+func TestKnownShapes(t *testing.T) {
+	for _, k := range knownShapes {
+		c := KnownCase{Known: k.Name, Src: k.Src, Types: k.Types}
+		ev.Case(ev.Digest([]byte(k.Src)), true, "known-shape:"+k.Name)
+		ev.ReportSoft(t, "known-shapes", c, ev.Guard(func() error { return checkKnown(c) }))
+	}
+}
+
 func replayOne(t *testing.T, f *ev.Failure) bool {
+	if f.Unit == "known-shapes" {
+		var k KnownCase
+		if err := json.Unmarshal(f.Case, &k); err != nil {
+			t.Fatal(err)
+		}
+		ev.Report(t, f.Unit, k, ev.Guard(func() error { return checkKnown(k) }))
+		return true
+	}
 	var c Case
 	if err := json.Unmarshal(f.Case, &c); err != nil {
 		t.Fatal(err)
